@@ -176,8 +176,9 @@ def pushdown_dnf(
             if table not in nodes:
                 continue
 
+            # The predicates stay in their original place, so what is pushed down is a copy
             conditions[table] = (
-                exp.or_(conditions[table], predicate) if table in conditions else predicate
+                exp.or_(conditions[table], predicate) if table in conditions else predicate.copy()
             )
 
         for name, node in nodes.items():
